@@ -227,7 +227,7 @@ class Machine:
         while work:
             s = work.pop()
             self.nstates += 1
-            if self.nstates > MAX_STATES or self.steps > MAX_STEPS:
+            if self.nstates > getattr(self, "max_states", MAX_STATES) or self.steps > getattr(self, "max_steps", MAX_STEPS):
                 self.out.append(Outcome("undecided", None, s.pc, (body.rec["path"], 0, "budget"), "abstract execution budget exceeded"))
                 break
             try:
@@ -593,7 +593,7 @@ class Machine:
         while True:
             self.steps += 1
             s.steps += 1
-            if self.steps > MAX_STEPS:
+            if self.steps > getattr(self, "max_steps", MAX_STEPS):
                 raise Stop("undecided", None, "step budget")
             fi = len(s.frames) - 1
             fr = s.frames[fi]
